@@ -18,6 +18,15 @@ async def _run(n0, cycles):
         script += [False] * c["fails"] + [True]
     conn, proto = CI.make_connection(script, log, transports)
     loop = asyncio.get_running_loop()
+    sm_puts = [0]
+    wq = proto._queues.write
+    orig_put = wq.put_nowait
+
+    def put_nowait(frame):
+        if int(frame.frame_type) == 0x19:
+            sm_puts[0] += 1            # a start-master request is handed to the transmit queue
+        return orig_put(frame)
+    wq.put_nowait = put_nowait
     await conn.connect()
     for _ in range(100):
         if proto.connected.is_set():
@@ -44,8 +53,7 @@ async def _run(n0, cycles):
         before = list(watched)
         mark = len(log)
         nt = len(transports)
-        count_sm = lambda: (sum(1 for _, w in transports for b in w.frames if b[7] == 0x19) +
-                            sum(1 for fr in list(proto._queues.write._queue) if int(fr.frame_type) == 0x19))
+        count_sm = lambda: sm_puts[0]
         sm_before = count_sm()
         # the k-th read / write after the traffic ends in a fault
         for _ in range(c["after"]):
